@@ -99,3 +99,21 @@ package nodes
 //@   stream 1 step INM forward: stepErr == nil ==> len(OUTM) == old(len(OUTM)) + 1 && lastOutM() == lastInM()
 //@   ensures endofstream: result == nil ==> calls(EndOfStreamReached) >= 1 && calls(Poll) >= 1
 //@   ensures errprop: runErr != nil ==> result != nil
+
+// C05 ORDER BY ... LIMIT emission: items are visited in ascending sort order (btree.Ascend); every emitted record is a
+// non-retraction carrying the visited item's values; with a limit, at most `limit` records are emitted in total,
+// duplicates counted individually, and emission stops only because the limit is reached or produce failed.
+//@ spec obItem(t *btree.BTree, k int) *orderByItem = tget(t, k, orderByItem)
+//@ spec obRI(t *btree.BTree) bool = addr(t) > 0 && forallK(k, thas(t, k) ==> ttag(t, k) == typeidptr(orderByItem) && 0 < addr(obItem(t, k)) && addr(obItem(t, k)) < frontier() && obItem(t, k).Count >= 1)
+//@ func produceOrderByItems
+//@   requires obRI(recordCounts) && (limit != nil ==> deref(limit) >= 0)
+//@   ascend 1 invariant bound: obRI(recordCounts) && len(OUT) >= old(len(OUT)) && i == len(OUT) - old(len(OUT)) && (limit != nil ==> i <= deref(limit))
+//@   ascend 1 step emitted: forall(j, old(len(OUT)), len(OUT), !OUT[j].Retraction && OUT[j].Values.base == obItem(recordCounts, lastkey()).Values.base && OUT[j].Values.off == obItem(recordCounts, lastkey()).Values.off && OUT[j].Values.len == obItem(recordCounts, lastkey()).Values.len)
+//@   ascend 1 step whole: continues ==> len(OUT) == old(len(OUT)) + obItem(recordCounts, lastkey()).Count
+//@   ascend 1 step partial: !continues && outErr == nil ==> limit != nil && len(OUT) - old(len(OUT)) < obItem(recordCounts, lastkey()).Count && i == deref(limit)
+//@   ensures limit: limit != nil ==> len(OUT) - old(len(OUT)) <= deref(limit)
+//@   ensures complete: result == nil && stopped() ==> limit != nil && len(OUT) - old(len(OUT)) == deref(limit)
+//@   ensures errprop: outErr != nil ==> result != nil
+//@ func produceOrderByItems$lit1
+//@   loop 1 invariant rows: 0 <= j && j <= itemTyped.Count && len(OUT) == old(len(OUT)) + j && i == old(i) + j && (limit != nil ==> i <= deref(limit)) && outErr == old(outErr)
+//@   loop 1 invariant emitted: forall(q, old(len(OUT)), len(OUT), !OUT[q].Retraction && OUT[q].Values.base == itemTyped.Values.base && OUT[q].Values.off == itemTyped.Values.off && OUT[q].Values.len == itemTyped.Values.len)
